@@ -205,10 +205,13 @@ def finish(pack, results, wall, tier, seed, write_evidence=True):
         if r.status != "refuted":
             lines.append(f"CHECKER-ERROR canary {r.name} was not refuted ({r.status}) {r.detail[:200]}")
             exit_code = 3
+    engine_doubt = False
     for r in cross:
         if r.status != "proved":
+            # the symbolic engine disagrees with CPython on this tree: its unconfirmed verdicts are not believed (they become undecided);
+            # a refutation whose counterexample replays on the real code stays a violation
             lines.append(f"CHECKER-ERROR engine/CPython conformance {r.name}: {r.status} {r.detail[:300]}")
-            exit_code = 3
+            engine_doubt = True
     known_hit = []
     for r in real + bounded:
         if r.status == "error":
@@ -231,6 +234,10 @@ def finish(pack, results, wall, tier, seed, write_evidence=True):
             with open(rp, "w") as f:
                 json.dump({"property": pid, "obligation": r.name, "kind": r.ob.kind, "status": r.status, "functions": list(r.ob.functions), "solver_output": r.detail, "witness": _jsonable(r.witness),
                            "replay_request": _jsonable(request), "native_replay": native, "confirmed_on_real_code": confirmed, "tier": tier}, f, indent=1, default=str)
+            if engine_doubt and not confirmed and r.ob.kind == "proof":
+                r.status = "undecided"
+                lines.append(f"UNDECIDED obligation={r.name} reason=engine/CPython conformance failed on this tree and the counterexample did not replay; was: {r.detail[:120]}")
+                continue
             if is_known(r.name):
                 k = [k for k in known if k["matches"](r.name)][0]
                 ln = f"KNOWN-FINDING: property={pid} {k['what']}"
@@ -245,6 +252,8 @@ def finish(pack, results, wall, tier, seed, write_evidence=True):
                 exit_code = 1
         elif r.status == "undecided":
             lines.append(f"UNDECIDED obligation={r.name} reason={r.detail[:200]}")
+    if engine_doubt and exit_code == 0:
+        exit_code = 3  # no confirmed violation and an engine that disagrees with CPython: no verdict
     counted = [r for r in real if not is_known(r.name) or r.status == "proved"]
     n_ob = len(counted)
     n_dis = sum(1 for r in counted if r.status == "proved")
